@@ -30,6 +30,9 @@ func c16Query() *rapid.Generator[string] {
 		rapid.SampledFrom([]string{"find files", "git commit", "docker ps", "FIND FILES", "x"}),
 		rapid.SampledFrom([]string{"find files", "git commit", "docker ps", "FIND FILES", "x"}),
 		rapid.String().Filter(utf8.ValidString),
+		// letters whose other case form has another length in UTF-8 (k / U+212A, U+023A / U+2C65, ...),
+		// title-case digraphs, final sigma: whatever a case-insensitive view folds
+		rapid.SampledFrom([]string{"ȺȺ", "ȺȾȺ ls", "ⱥⱥ", "convert 300K", "convert 300k", "Ǆep ǅep ǆep", "ΣΑΣ", "σας", "ſtraße", "STRASSE", "İstanbul", "ı i I", "Å å Å"}),
 		// the validator lets invalid UTF-8 through, so the history is handed such queries too
 		rapid.SampledFrom([]string{"a\xe6", "zzqxj a\xe6", "\xff\xfe", "find \xc3", "ok \xe2\x82", "\x80\x80\x80", "caf\xe9"}),
 		// texts that mean something to a JSON writer or reader: literal escape sequences, quotes,
@@ -133,6 +136,21 @@ func c16Views(t *rapid.T, sh *history.SearchHistory, model []histEnt, steps []st
 	}
 	// pattern view: exactly the entries containing the pattern (case-insensitive), newest first
 	pat := rapid.SampledFrom([]string{"find", "FILES", "git", "x", "", "zz"}).Draw(t, "pattern")
+	if len(model) > 0 && rapid.IntRange(0, 2).Draw(t, "pattern-from-log") != 0 {
+		// a recorded query itself, or a piece of it, as typed or in the other letter case
+		rs := []rune(model[rapid.IntRange(0, len(model)-1).Draw(t, "pattern-of")].q)
+		if len(rs) > 0 && rapid.Bool().Draw(t, "pattern-piece") {
+			a := rapid.IntRange(0, len(rs)-1).Draw(t, "piece-from")
+			rs = rs[a : a+rapid.IntRange(1, len(rs)-a).Draw(t, "piece-len")]
+		}
+		pat = string(rs)
+		switch rapid.IntRange(0, 2).Draw(t, "pattern-case") {
+		case 1:
+			pat = strings.ToUpper(pat)
+		case 2:
+			pat = strings.ToLower(pat)
+		}
+	}
 	wantN := 0
 	for _, m := range model {
 		if strings.Contains(strings.ToLower(m.q), strings.ToLower(pat)) {
